@@ -246,4 +246,5 @@ func runC07(cw *caseWriter, tier string, seed uint64) {
 		c07exec(cw, cw.tag("r"), in, r.intn(100) == 0)
 	}
 	cw.stat("c07_random_cases", cnt)
+	c07nGen(cw, tier, r)
 }
